@@ -63,6 +63,8 @@ fn history_queries() -> Vec<String> {
         r#"FIND(?a.id) WHERE { ?a ASSERTION {stance: "support"} }"#,
         r#"FIND(?c.name) WHERE { ?c CONCEPT {} FILTER(?c.name != "Alice") }"#,
         r#"FIND(?c.name) WHERE { ?c CONCEPT {type: "Person"} } ORDER BY ?c.name LIMIT 2"#,
+        // list-valued fields of a projected belief
+        r#"FIND(?s.name, ?b.support.assertion_ids, ?b.opposition.assertion_ids) WHERE { ?p PROPOSITION (?s, "prefers", ?o) ?b BELIEF (?p) }"#,
     ] {
         q.push(extra.into());
     }
@@ -146,7 +148,28 @@ pub fn execute(case: &Case, rep: &mut RunReport) -> Result<(), Violation> {
     let mut last_seq = 0u64;
     let mut empty_lock_active = false;
     let mut purged_any = false;
-    for i in 0..case.n {
+    // one history in eight starts with more than ten claims about one tuple
+    // (element ids pass from one digit to two)
+    let mut scripted: std::collections::VecDeque<Stmt> = Default::default();
+    if simcore::rng::derive(case.seed, "many-claims") % 8 == 0 {
+        scripted.push_back(Stmt {
+            text: "MUTATE {\n  CREATE CONCEPT ?s { TYPE \"Person\" NAME \"Alice\" }\n  CREATE CONCEPT ?o { TYPE \"Preference\" NAME \"Dark\" }\n  ENSURE PROPOSITION ?p (?s, \"prefers\", ?o)\n}".into(),
+            params: serde_json::json!({}),
+            dry_run: false,
+            family: "scripted".into(),
+        });
+        for k in 0..11 {
+            scripted.push_back(Stmt {
+                text: format!("ASSERT (:s, \"prefers\", :o) {{ by: :s, mode: \"stated\", confidence: 0.{}, stance: \"{}\" }}", 3 + k % 6, if k % 4 == 3 { "reject" } else { "support" }),
+                params: serde_json::json!({"s": {"id": "$S"}, "o": {"id": "$O"}}),
+                dry_run: false,
+                family: "scripted".into(),
+            });
+        }
+        rep.probe("histories_with_more_than_ten_claims_on_one_tuple", 1);
+    }
+    let total = if scripted.is_empty() { case.n } else { case.n.max(13) };
+    for i in 0..total {
         if case.schema_flips.contains(&i) {
             // a schema activation is a committed point of the history like any
             // other: names resolve differently after it, never before it
@@ -182,7 +205,14 @@ pub fn execute(case: &Case, rep: &mut RunReport) -> Result<(), Violation> {
             let keys: Vec<u64> = recorded.keys().copied().collect();
             check_replays(&session, &recorded, &keys, &format!("after the schema activation at sequence {s}"), rep)?;
         }
-        let mut st: Stmt = sgen::generate(&mut grng, &reg);
+        let mut st: Stmt = match scripted.pop_front() {
+            Some(mut st) => {
+                let txt = st.params.to_string().replace("$S", reg.persons.first().map(|s| s.as_str()).unwrap_or("C-1")).replace("$O", reg.concepts.iter().find(|c| !reg.persons.contains(c)).map(|s| s.as_str()).unwrap_or("C-2"));
+                st.params = serde_json::from_str(&txt).unwrap();
+                st
+            }
+            None => sgen::generate(&mut grng, &reg),
+        };
         st.dry_run = false;
         if case.purge && i == case.n / 2 && !reg.concepts.is_empty() {
             st = Stmt { text: format!("PURGE \"{}\" REFERENCE POLICY \"tombstone_reference\" CONFIRM \"PURGE\"", reg.concepts[0]), params: serde_json::json!({}), dry_run: false, family: "purge".into() };
